@@ -129,6 +129,11 @@ def main(argv):
         return setup()
     from . import build, findings, evidence, engine
     prop, tier = a['prop'], a['tier']
+    try:
+        build.ensure_numpy()        # normally done by --setup; a check started without it installs it itself
+    except Exception as e:
+        print('HARNESS-ERROR: numpy not installable from the offline wheelhouse: %s' % e)
+        return 2
     seed = int(os.environ.get('VERIF_SEED', '0') or 0)
     t0 = time.time()
     casefile = None
